@@ -1,4 +1,8 @@
 import MpfVerif.Lemmas.BcpMarker
+import MpfVerif.Lemmas.BcpGen
+import MpfVerif.Lemmas.BcpJson
+import MpfVerif.Lemmas.BcpCodec
+import MpfVerif.Lemmas.BcpMux
 /-!
 # C19 — BCP messages round-trip exactly and reassemble from any chunking
 
@@ -6,6 +10,7 @@ Property theorems only (helper lemmas live in `Lemmas/Bcp*.lean`, the model in `
 -/
 namespace MpfVerif.C19
 open MpfVerif.Bcp
+open MpfVerif.Gen
 
 /-- Scalar parameters (the non-JSON branch): for every command without `?`, every parameter list with distinct names,
 every string (any bytes — `%XX`, type-like prefixes, separators, newlines …), integer, float text, bool and None,
@@ -165,5 +170,158 @@ theorem stream_roundtrip (msgs : List ((Bytes × List (Bytes × Val)) × Bytes))
   · intro m hm
     obtain ⟨h1, h2, h3⟩ := h m hm
     exact roundtrip_flat _ _ (fun hx => (h1 63 hx).2.1 rfl) h2 (fun kv hk => (h3 kv hk).2)
+
+/-! ## tie to the source: the tables regenerated from `bcp_socket_client.py` (`Gen/BcpTables.lean`) -/
+
+/-- The table-driven encoder, decoder and marker test (`Model/BcpGen.lean`: interpreters of the branch tables that
+`translate/bcp_tables.py` reads from the AST of `encode_command_string` / `decode_command_string` / `BYTE_MARKER` on every
+check) ARE the hand model's functions — so `roundtrip_flat`, `stream_roundtrip` … speak about the prefixes, slice offsets,
+chain order, separators and `safe` argument found in the source now.  A change of any of them regenerates the tables and
+this theorem (or `tables_consistent`) no longer checks. -/
+theorem tables_refine_model :
+    (∀ cmd kw, encodeFlatT cmd kw = some (encodeFlat cmd kw)) ∧ (∀ line, decodeT line = decode line) ∧
+      (∀ raw, decodeValueT raw = decodeValue raw) ∧ (∀ v, encodeValueT v = encodeValue v) ∧
+      (∀ line, markerOfT line = markerOf line) :=
+  ⟨encodeFlatT_eq, decodeT_eq, decodeValueT_eq, encodeValueT_eq, markerOfT_eq⟩
+
+/-- The tables agree with each other (pure table facts, by evaluation): every prefix the encoder puts in front of a typed
+value is recognised by the decoder — `startswith` with a slice offset equal to the prefix length and the conversion of
+that type; the `bool` prefix followed by the lower-cased `str(True)` / `str(False)` is an equality arm giving that
+constant; the bare `NoneType:` literal is an equality arm giving `None`; in the encoder `bool` is tested before `int`
+(a bool is an int); `quote` is called with `safe=''` for values and names; the decoder's `json=` test, its slice bounds
+and the encoder's `'json={}'` format agree (so the slice comparison is a prefix test); the payload marker is `&bytes=`. -/
+theorem tables_consistent :
+    (∀ e ∈ BcpTables.encChain, e.2.2 = true → e.1 ≠ "bool" →
+      ∃ d ∈ BcpTables.decChain, d.1 = "startswith" ∧ d.2.1 = e.2.1 ∧ d.2.2.1 = e.2.1.length ∧ d.2.2.2 = e.1) ∧
+    (∀ e ∈ BcpTables.encChain, e.1 = "bool" → e.2.2 = true ∧
+      (∃ d ∈ BcpTables.decChain, d.1 = "lower==" ∧ d.2.1 = e.2.1 ++ toLower sTrue ∧ d.2.2.2 = "True") ∧
+      (∃ d ∈ BcpTables.decChain, d.1 = "lower==" ∧ d.2.1 = e.2.1 ++ toLower sFalse ∧ d.2.2.2 = "False")) ∧
+    (∀ e ∈ BcpTables.encChain, e.2.2 = false →
+      ∃ d ∈ BcpTables.decChain, d.1 = "==" ∧ d.2.1 = e.2.1 ∧ d.2.2.2 = "None") ∧
+    (BcpTables.encChain.map (·.1)).idxOf "bool" < (BcpTables.encChain.map (·.1)).idxOf "int" ∧
+    (BcpTables.encChain.map (·.1)) = ["bool", "int", "float", "NoneType"] ∧
+    BcpTables.quoteSafeValue = [] ∧ BcpTables.quoteSafeKey = [] ∧
+    BcpTables.jsonTest = BcpTables.jsonFormat ∧ BcpTables.jsonTestLo = 0 ∧
+    BcpTables.jsonTestHi = BcpTables.jsonTest.length ∧ BcpTables.jsonDrop = BcpTables.jsonFormat.length ∧
+    BcpTables.jsonFormat = BcpTables.jsonKey ++ BcpTables.partSep ∧
+    BcpTables.byteMarker = BcpTables.splitSep ++ sBytes ++ BcpTables.partSep := by
+  refine ⟨?_, ?_, ?_, by decide, by decide, by decide, by decide, by decide, by decide, by decide, by decide, by decide,
+    by decide⟩
+  all_goals
+    intro e he
+    simp only [BcpTables.encChain, List.mem_cons, List.not_mem_nil, or_false] at he
+    rcases he with rfl | rfl | rfl | rfl <;> decide
+
+/-- the round trip stated on the table-driven functions directly: what the tables of the source encode, the tables of the
+source decode back to the same command, names, values and types -/
+theorem roundtrip_flat_tables (cmd : Bytes) (kw : List (Bytes × Val)) (hc : 63 ∉ cmd) (hwf : KwWF kw)
+    (hj : ∀ kv ∈ kw, kv.1 ≠ BcpTables.jsonKey) :
+    ∃ line, encodeFlatT cmd kw = some line ∧ decodeT line = .flat cmd kw :=
+  ⟨encodeFlat cmd kw, encodeFlatT_eq cmd kw, by rw [decodeT_eq]; exact roundtrip_flat cmd kw hc hwf hj⟩
+
+/-- non-vacuity: the table-driven functions run in the kernel -/
+example : (encodeFlatT [116] [([97], .bool true), ([98], .int 5), ([99], .none), ([100], .str [105, 110, 116, 58, 53])]).map decodeT
+    = some (.flat [116] [([97], .bool true), ([98], .int 5), ([99], .none), ([100], .str [105, 110, 116, 58, 53])]) := by
+  decide
+
+/-! ## the JSON branch with a concrete codec (`Model/BcpJson.lean`) -/
+
+/-- `json.dumps` / `json.loads` as modelled concretely (null / true / false / ints of any size / float texts / strings over
+all Unicode scalar values with CPython's `ensure_ascii` escapes and surrogate pairs / lists / dicts with str keys, nested
+to any depth) form a codec: the abstract hypothesis `dec (enc v) = some v` of `roundtrip_json` is now a theorem
+(`jdec_jenc`) for every well-formed value. -/
+theorem json_codec_concrete (v : J) (h : v.WF) : jdec (jenc v) = some v := jdec_jenc v h
+
+/-- JSON branch, concretely: a message whose parameters need JSON (nested lists / dicts, or a parameter named `json`)
+decodes back to the same command and — through the concrete parser — to the same value tree with the same types. -/
+theorem roundtrip_json_concrete (cmd : Bytes) (v : J) (hc : 63 ∉ cmd) (h : v.WF) :
+    ∃ t, decode (encodeJson cmd (jenc v)) = .json cmd t ∧ jdec t = some v := by
+  refine ⟨jenc v, ?_, jdec_jenc v h⟩
+  unfold encodeJson decode
+  simp only [splitFirst_append 63 cmd _ hc, Option.getD_some, prefix_self_append, if_true]
+  simp [sJsonEq]
+
+/-- a JSON-encoded message is a single line of printable ASCII after the command: no raw newline -/
+theorem encoded_json_is_one_line (cmd : Bytes) (v : J) (hc : 10 ∉ cmd) (h : v.WF) : 10 ∉ encodeJson cmd (jenc v) := by
+  unfold encodeJson
+  simp only [List.mem_append, List.mem_cons, not_or]
+  exact ⟨hc, by omega, by decide, jenc_one_line v h⟩
+
+/-- `MpfJSONEncoder.default(o) = str(o)`: an object `json` does not know is written as the JSON string of its `str()` —
+it comes back as that string (not as the object; such values are outside the property's value types). -/
+theorem json_unknown_object_becomes_str (t : List Nat) (h : ∀ c ∈ t, Scalar c) :
+    jdec (jencOther t) = some (.str t) := by
+  rw [jencOther_is_str]; exact jdec_jenc (.str t) (by simpa [J.WF] using h)
+
+/-- non-vacuity: a nested parameter dictionary with quotes, a newline, a non-BMP character, `&bytes=3` inside a string -/
+example : jdec (jenc (.obj [([97], .arr [.int (-5), .null, .flt [49, 101, 43, 50, 50]]),
+    ([98], .str [34, 10, 128512, 38, 98, 121, 116, 101, 115, 61, 51]), ([99], .obj [])])) =
+    some (.obj [([97], .arr [.int (-5), .null, .flt [49, 101, 43, 50, 50]]),
+    ([98], .str [34, 10, 128512, 38, 98, 121, 116, 101, 115, 61, 51]), ([99], .obj [])]) := by rfl
+
+/-! ## tie to the source: the two functions translated whole (`Gen/BcpCodec.lean`, interpreter `Model/PyStr.lean`) -/
+
+/-- **`decode_command_string` and `encode_command_string` as written in the source ARE the model's `decode` /
+`encodeFlat` / `encodeJson`.**  `translate/bcp_codec.py` turns the two Python functions, statement by statement, into data
+(`Gen/BcpCodec.lean`, regenerated on every check) for the fixed interpreter `Model/PyStr.lean`, whose string primitives
+(`quote(·, '')`, `unquote`, `replace('+', ' ')`, `lower`, `startswith`, slices, `partition`, `split`, `str`, `isinstance`
+with bool-is-an-int, `int`, `urlsplit`, `urlunparse`) are the hand model's functions and `json.dumps` / `json.loads` the
+abstract codec.  Running the translated decoder on ANY byte string gives exactly `decode`; running the translated encoder
+on ANY command and ANY parameter list (scalars and nested values, `dumps` arbitrary) gives exactly
+`encodeJson cmd (dumps args)` when some value is nested or a parameter is called `json`, and `encodeFlat` on the scalars
+otherwise.  No hypotheses.  Hence `roundtrip_flat`, `roundtrip_json*`, `encoded_is_one_line`, `stream_roundtrip` speak
+about the source text; a change of either function changes the generated program and this proof no longer checks. -/
+theorem codec_refines_source :
+    (∀ line : Bytes, PyStr.runDecode Gen.BcpCodec.decodeProg line = decode line) ∧
+    (∀ (dumps : List (Bytes × PyStr.Arg) → Bytes) (cmd : Bytes) (args : List (Bytes × PyStr.Arg)),
+      PyStr.runEncode dumps Gen.BcpCodec.encodeProg cmd args = some (PyStr.encode dumps cmd args)) :=
+  ⟨PyStr.decode_refines_source, PyStr.encode_refines_source⟩
+
+/-- the round trip stated on the translated source functions themselves: what the interpreted `encode_command_string`
+writes for scalar parameters, the interpreted `decode_command_string` reads back as the same command, names, values, types -/
+theorem roundtrip_flat_source (dumps : List (Bytes × PyStr.Arg) → Bytes) (cmd : Bytes) (kw : List (Bytes × Val))
+    (hc : 63 ∉ cmd) (hwf : KwWF kw) (hj : ∀ kv ∈ kw, kv.1 ≠ sJson) :
+    ∃ line, PyStr.runEncode dumps Gen.BcpCodec.encodeProg cmd (kw.map (fun kv => (kv.1, PyStr.Arg.scalar kv.2))) = some line ∧
+      PyStr.runDecode Gen.BcpCodec.decodeProg line = .flat cmd kw := by
+  refine ⟨encodeFlat cmd kw, ?_, ?_⟩
+  · rw [PyStr.encode_refines_source]
+    have h2 : ∀ l : List (Bytes × Val), PyStr.scalarsOf (l.map (fun kv => (kv.1, PyStr.Arg.scalar kv.2))) = l := by
+      intro l
+      induction l with
+      | nil => rfl
+      | cons kv r ih => simp [PyStr.scalarsOf, ih]
+    have h1 : ∀ l : List (Bytes × Val), (∀ kv ∈ l, kv.1 ≠ sJson) →
+        PyStr.needsJson (l.map (fun kv => (kv.1, PyStr.Arg.scalar kv.2))) = false := by
+      intro l hl
+      induction l with
+      | nil => rfl
+      | cons kv r ih =>
+        have hk : kv.1 ≠ sJson := hl kv List.mem_cons_self
+        have := ih (fun x hx => hl x (List.mem_cons_of_mem _ hx))
+        simp [PyStr.needsJson, PyStr.isNested, hk, this]
+    simp [PyStr.encode, h1 kw hj, h2 kw]
+  · rw [PyStr.decode_refines_source]; exact roundtrip_flat cmd kw hc hwf hj
+
+/-! ## several clients, dispatch (`BcpTransportManager._receive_loop`, `BcpInterface.process_bcp_message`) -/
+
+/-- Any number of clients whose reads interleave in ANY order and ANY chunking: what a client gets dispatched depends only
+on its own byte sequence — if client `c` sent the frames `fs` (lines without raw newline; no marker-like line without
+payload), then exactly the frames of `fs` with a registered command are dispatched for `c`, in the order sent, each with
+its own payload and no other; frames with an unknown command are skipped and nothing after them is lost; `c`'s reader is
+back in its initial state.  Other clients' bytes (complete, torn or garbage) cannot change this. -/
+theorem clients_dispatched_in_order (known : Bytes → Bool) (sched : List (Nat × Bytes)) (c : Nat) (fs : List Frame)
+    (h : ∀ f ∈ fs, 10 ∉ f.1 ∧ (f.2 = [] → NoMarker f.1)) (hb : bytesOf c sched = fs.flatMap wire) :
+    framesOf c (dispatch known (muxRun (fun _ => {}) sched).2) = fs.filter (fun f => known (splitFirst 63 f.1).1) ∧
+      (muxRun (fun _ => {}) sched).1 c = {} := by
+  have k := muxRun_client (fun _ => {}) sched c
+  rw [hb, delivered_in_order fs h] at k
+  rw [framesOf_dispatch, k.1]
+  exact ⟨rfl, k.2⟩
+
+/-- non-vacuity: two clients, reads interleaved byte-wise in part; client 1 sends `a`, an unknown `zz`, then `b` with a
+2-byte payload; client 2 sends a torn line.  Client 1's known frames arrive in order. -/
+example : framesOf 1 (dispatch (fun cmd => cmd.length == 1)
+    (muxRun (fun _ => {}) [(1, [97]), (2, [120, 63]), (1, [10, 122, 122]), (2, [121]), (1, [10, 98, 38, 98, 121, 116, 101, 115, 61, 50, 10, 7]),
+      (1, [10])]).2) = [([97], []), ([98], [7, 10])] := by decide
 
 end MpfVerif.C19
